@@ -2,11 +2,13 @@ module verifmc
 
 go 1.25.0
 
-require github.com/zmap/zcrypto v0.0.0
+require (
+	github.com/zmap/zcrypto v0.0.0
+	golang.org/x/crypto v0.54.0
+)
 
 require (
 	github.com/weppos/publicsuffix-go v0.50.4-0.20260715080728-6ed62ce99a4a // indirect
-	golang.org/x/crypto v0.54.0 // indirect
 	golang.org/x/net v0.57.0 // indirect
 	golang.org/x/sys v0.47.0 // indirect
 	golang.org/x/text v0.40.0 // indirect
